@@ -5,6 +5,7 @@ CONSTANTS
   Tier = "q"
   Unguarded = {"AssnSubjectNil", "ConfDataNil", "ConditionsNil", "PlainRootNil", "LogoutRootNil", "LogoutIssuerNil", "AuthnIssuerNil", "EncCertIndex"}
   Unwrapped = {}
+  DepthRestore = "nobound"
 INIT Init
 NEXT Next
 INVARIANTS
